@@ -428,6 +428,24 @@ fn gen_eval_inner(rng: &mut Rng, ctx: &Ctx) -> EvalInstr {
             text: "reg".to_string(),
             kind: EvalKind::Word(0xF027),
         },
+        9 => {
+            // Subroutine jumps: the PC effect is specified, the link value is not
+            if !ctx.labels.is_empty() && rng.coin() {
+                let (label, _) = rng.pick(&ctx.labels).clone();
+                EvalInstr {
+                    text: format!("jsr {}", label),
+                    kind: EvalKind::JumpLabel { label },
+                }
+            } else {
+                // (not R7: whether JSRR R7 links before or after reading the base differs between
+                // ISA editions)
+                let b = rng.below(7) as u16;
+                EvalInstr {
+                    text: format!("jsrr r{}", b),
+                    kind: EvalKind::JumpReg { reg: b as u8 },
+                }
+            }
+        }
         10 => {
             let x = r(rng);
             let (text, word) = match rng.below(3) {
@@ -457,7 +475,14 @@ fn gen_eval_inner(rng: &mut Rng, ctx: &Ctx) -> EvalInstr {
         _ => {
             // Forms that must be refused without effect
             let label = ctx.labels.first().map(|l| l.0.clone()).unwrap_or_else(|| "X9".to_string());
+            let other = ctx.labels.last().map(|l| l.0.clone()).unwrap_or_else(|| "Y8".to_string());
             let options: Vec<String> = vec![
+                // A label in front of the instruction is not "exactly one instruction"
+                format!("{} add r0, r0, #0", label),
+                format!("{} add r1, r1, #1", other),
+                format!("{}: not r2, r2", other),
+                "Fresh_lbl_9 add r0, r0, #0".to_string(),
+                format!("{} .fill x0", label),
                 format!("br {}", label),
                 format!("brz {}", label),
                 format!("brnzp {}", label),
@@ -542,6 +567,18 @@ pub fn gen_garbage(rng: &mut Rng) -> String {
         "next",
         "jump x3000",
     ];
+    if rng.chance(1, 10) {
+        // Bytes that are not valid UTF-8 (each followed by ASCII, so that every one of them is
+        // one malformed sequence): stray continuation bytes, invalid lead bytes, Latin-1 text
+        let b = |rng: &mut Rng| crate::session::raw_byte_marker(*rng.pick(&[0x80u8, 0xA0, 0xB0, 0xBF, 0xC3, 0xE2, 0xF0, 0xFF, 0xFE]));
+        return match rng.below(5) {
+            0 => format!("{}", b(rng)),
+            1 => format!("p {}r1", b(rng)),
+            2 => format!("m r1 {} 5", b(rng)),
+            3 => format!("{}tep", b(rng)),
+            _ => format!("echo{} x q", b(rng)),
+        };
+    }
     match rng.below(10) {
         0..=2 => invalid_integer_line(rng),
         3 | 4 => misspelled_name_line(rng),
@@ -582,6 +619,13 @@ fn invalid_integer_line(rng: &mut Rng) -> String {
 
 /// A documented misspelling: must be rejected (the debugger only suggests the real name).
 fn misspelled_name_line(rng: &mut Rng) -> String {
+    if rng.chance(1, 6) {
+        // Letters that are not ASCII but lower-case (or upper-case) to ASCII: KELVIN SIGN,
+        // LATIN SMALL LETTER LONG S, dotless/dotted i
+        return rng
+            .pick(&["brea\u{212A} list", "brea\u{212A} add x3001", "brea\u{212A}list", "\u{212A}", "re\u{17F}et", "reg\u{131}sters", "qu\u{130}t", "\u{212A}ontinue"])
+            .to_string();
+    }
     const WORDS: [&str; 40] = [
         "con", "proceed", "get r1", "show r1", "display r1", "put r1", "set r1 1", "mov r1 1", "mv r1 1", "assign r1 1",
         "dump", "register", "regs", "jump x3000", "go x3000", "go-to x3000", "jsr x3000", "source", "src", "inspect",
@@ -660,6 +704,16 @@ pub fn gen_item(rng: &mut Rng, ctx: &Ctx, mix: &Mix) -> Cmd {
                 Cmd::Assembly(Some(gen_loc(rng, ctx, mix.refused_pct, true)))
             }
         }
+        10 if rng.chance(1, 12) => {
+            // A very long command line whose tail looks like commands
+            let mut text = "long".to_string();
+            let n = 1000 + rng.usize_below(200);
+            while text.len() < n {
+                let piece: &str = *rng.pick(&[" aaaa", " bb", " c", " x3000", " move r1 7", " z", " q"]);
+                text.push_str(piece);
+            }
+            Cmd::Echo(text)
+        }
         10 => Cmd::Echo(
             rng.pick(&["hello", "a  b", "step", "x3000 ^ r1", "é!", "é é x", "grüü z", "ñ ñ c", "ü", "→→ s", "😀 q", "日本語 exit", "ééé reset"])
                 .to_string(),
@@ -706,8 +760,46 @@ pub fn gen_script(rng: &mut Rng, ctx: &Ctx, mix: &Mix, max_len: usize, end: EndS
             });
         }
     }
+    if mix.eval > 0 && !ctx.labels.is_empty() && rng.chance(1, 6) {
+        // A subroutine jump whose target is the very next address
+        let (label, addr) = rng.pick(&ctx.labels).clone();
+        if addr > ctx.program.origin() {
+            items.push(Item {
+                cmd: Cmd::Goto(Loc::Label { name: label.clone(), off: -1 }),
+                spell: rng.next_u64(),
+            });
+            items.push(Item {
+                cmd: Cmd::Eval(EvalInstr {
+                    text: format!("jsr {}", label),
+                    kind: EvalKind::JumpLabel { label },
+                }),
+                spell: rng.next_u64(),
+            });
+        }
+    }
+    let mut break_addrs: Vec<i64> = Vec::new();
     for _ in 0..n {
-        let cmd = gen_item(rng, ctx, mix);
+        let mut cmd = gen_item(rng, ctx, mix);
+        // Breakpoints a multiple of 64 (or 16, 256) words apart from an earlier one: containers
+        // that summarise addresses confuse exactly those
+        if let Cmd::BreakAdd(loc) | Cmd::BreakRemove(loc) = &mut cmd {
+            if let Loc::Abs(a) = loc {
+                if !break_addrs.is_empty() && rng.chance(1, 4) {
+                    let base = *rng.pick(&break_addrs);
+                    let step = *rng.pick(&[64i64, 64, 128, 16, 256]);
+                    let cand: Vec<i64> = ctx
+                        .code_addrs
+                        .iter()
+                        .map(|c| *c as i64)
+                        .filter(|c| *c != base && (*c - base) % step == 0)
+                        .collect();
+                    if !cand.is_empty() {
+                        *a = *rng.pick(&cand);
+                    }
+                }
+                break_addrs.push(*a);
+            }
+        }
         // Biased placement: right after a state-creating command, aim a follow-up at it
         items.push(Item {
             cmd,
